@@ -501,3 +501,42 @@ Proof.
 Qed.
 
 End WithTable.
+
+(* non-vacuity: the premises of the four `_obs` / `_total` theorems hold on concrete boards
+   (further examples, against the rules' successor, are in SuccProofs.v) *)
+Definition ex_put_all (l : list (N * piece * color)) (b : board) : board :=
+  fold_left (fun b0 x => let '(i, p, c) := x in
+               match put example_table b0 i p c with Ok b1 => b1 | _ => b0 end) l b.
+
+(* kings e1/e8, white rooks a1/h1, white pawns e5 and b7, black pawn d5, black rook a8 *)
+Definition ex_board : board :=
+  ex_put_all [(4, King, White); (60, King, Black); (0, Rook, White); (7, Rook, White);
+              (36, Pawn, White); (35, Pawn, Black); (49, Pawn, White); (56, Rook, Black)] board_new.
+
+Example ex_board_premises :
+  wf_b ex_board = true /\ counters_ok ex_board /\
+  bget ex_board 0 = Some (Rook, White) /\ found_on ex_board 0 1 = None /\
+  bget ex_board 49 = Some (Pawn, White) /\ found_on ex_board 49 56 = Some (Rook, Black).
+Proof.
+  split; [vm_compute; reflexivity|]. split.
+  - unfold counters_ok. repeat (lazymatch goal with |- _ /\ _ => split end); vm_compute; discriminate.
+  - repeat (lazymatch goal with |- _ /\ _ => split end); vm_compute; reflexivity.
+Qed.
+
+Example ex_all_four_kinds_apply :
+  (exists b', apply_std example_table ex_board 0 1 None = Ok b' /\ bget b' 1 = Some (Rook, White)) /\
+  (exists b', apply_promo example_table ex_board 49 56 (Some Rook) Queen = Ok b' /\ bget b' 56 = Some (Queen, White)) /\
+  (exists b', apply_ep example_table ex_board 36 43 = Ok b' /\ bget b' 35 = None) /\
+  (exists b', apply_castle example_table ex_board 4 6 = Ok b' /\ bget b' 5 = Some (Rook, White)).
+Proof.
+  repeat (lazymatch goal with |- _ /\ _ => split end); eexists; (split; [vm_compute; reflexivity|vm_compute; reflexivity]).
+Qed.
+
+Print Assumptions apply_std_obs.
+Print Assumptions apply_promo_obs.
+Print Assumptions apply_ep_obs.
+Print Assumptions apply_castle_obs.
+Print Assumptions apply_std_total.
+Print Assumptions apply_promo_total.
+Print Assumptions apply_ep_total.
+Print Assumptions apply_castle_total.
